@@ -72,7 +72,7 @@ fn lemma_div_bracket32() {
     assert!(0 <= r && r < d && q >= 0, "range of quotient and remainder");
     assert!(div_bracket(n as i64, d as i64, q as i64), "power-of-two bracket of the quotient");
 }
-// @h name=lemma_div_bracket64 props=C01 fn=crate::lldiv tier=thorough t=3600 kind=lemma
+// @h name=lemma_div_bracket64 props=C01 fn=crate::lldiv tier=quick t=600 kind=lemma
 #[kani::proof]
 fn lemma_div_bracket64() {
     let n: i64 = kani::any();
